@@ -10,13 +10,14 @@
 //! All verdicts are computed on the Python side (vp_harness/props/c18.py).
 use crate::util::{err, get_u64};
 use sc62015_core::async_driver::{
-    current_cycle, emit_event, sleep_cycles, AsyncDriver, DriverEvent,
+    current_cycle, emit_event, sleep_cycles, AsyncDriver, CycleSleep, DriverEvent,
 };
 use sc62015_core::llama::opcodes::RegName;
 use sc62015_core::llama::state::PowerState;
 use sc62015_core::{collect_registers, AsyncRuntimeRunner, CoreRuntime, TimerContext};
 use serde_json::{json, Map, Value};
 use std::cell::{Cell, RefCell};
+use std::collections::BTreeMap;
 use std::future::Future;
 use std::pin::Pin;
 use std::rc::Rc;
@@ -37,11 +38,68 @@ enum Op {
     Yield,
 }
 
+/// Where the `CycleSleep` future awaited by an op is *constructed* (`sleep_cycles(d)` is called).  The crate's
+/// sleep future is inert until it is polled, so this is only a question of which line of the task (or of the
+/// host) the constructor call stands on.
+#[derive(Clone, Copy, PartialEq)]
+enum Mk {
+    /// `sleep_cycles(d).await` -- constructed in the resumption that awaits it
+    Inline,
+    /// `let nap = sleep_cycles(d);` k resumptions before the one that does `nap.await` (clipped to the task's
+    /// first poll)
+    Earlier(u64),
+    /// constructed by the host right before `driver.spawn(task)` and moved into the task
+    HostSpawn,
+    /// constructed by the host right after the driver was constructed (before any `run_for`)
+    HostNew,
+}
+
 #[derive(Clone)]
 struct Script {
     at: u64,
     start_emit: Option<u32>,
     ops: Vec<(Op, Option<u32>)>,
+    /// per op: construction place of its sleep future (empty = all inline)
+    mk: Vec<Mk>,
+    /// (resumption, d): `let _ = sleep_cycles(d);` in that resumption (-1 = first poll, i = the resumption that
+    /// follows op i) -- a sleep future that is constructed and dropped without ever being awaited
+    ghosts: Vec<(i64, u64)>,
+}
+
+impl Script {
+    /// resumption (-1 = first poll, i = after op i) -> ops whose sleep future is constructed there;
+    /// resumption -> durations of the ghosts constructed there
+    fn plan(&self) -> (BTreeMap<i64, Vec<usize>>, BTreeMap<i64, Vec<u64>>) {
+        let mut arm: BTreeMap<i64, Vec<usize>> = BTreeMap::new();
+        for (j, m) in self.mk.iter().enumerate() {
+            if let Mk::Earlier(k) = m {
+                let at = (j as i64 - 1).saturating_sub((*k).min(i64::MAX as u64) as i64).max(-1);
+                arm.entry(at).or_default().push(j);
+            }
+        }
+        let mut gh: BTreeMap<i64, Vec<u64>> = BTreeMap::new();
+        for (r, d) in self.ghosts.iter() {
+            gh.entry(*r).or_default().push(*d);
+        }
+        (arm, gh)
+    }
+
+    /// the sleep futures the host constructs for this script at the given place
+    fn host_built(&self, place: Mk, armed: &mut Vec<Option<CycleSleep>>) {
+        if self.mk.is_empty() {
+            return;
+        }
+        if armed.len() < self.ops.len() {
+            armed.resize_with(self.ops.len(), || None);
+        }
+        for (j, m) in self.mk.iter().enumerate() {
+            if *m == place {
+                if let Op::Sleep(d) = self.ops[j].0 {
+                    armed[j] = Some(sleep_cycles(d));
+                }
+            }
+        }
+    }
 }
 
 struct YieldOnce {
@@ -68,16 +126,43 @@ struct Shared {
     done: Cell<u64>,
 }
 
-async fn scripted(id: u64, script: Script, sh: Rc<Shared>) {
+/// `armed[j]` = the sleep future of op j if the host constructed it (see `Mk`), else None.
+async fn scripted(id: u64, script: Script, sh: Rc<Shared>, mut armed: Vec<Option<CycleSleep>>) {
+    let (arm, gh) = script.plan();
+    let plain = arm.is_empty() && gh.is_empty();
+    if !plain && armed.len() < script.ops.len() {
+        armed.resize_with(script.ops.len(), || None);
+    }
+    // what a resumption does besides logging/emitting: `let nap_j = sleep_cycles(d_j);` for later ops
+    let construct = |r: i64, armed: &mut Vec<Option<CycleSleep>>| {
+        if let Some(js) = arm.get(&r) {
+            for j in js {
+                if let Op::Sleep(d) = script.ops[*j].0 {
+                    armed[*j] = Some(sleep_cycles(d));
+                }
+            }
+        }
+        if let Some(ds) = gh.get(&r) {
+            for d in ds {
+                let _ = sleep_cycles(*d);
+            }
+        }
+    };
     sh.log
         .borrow_mut()
         .push((id, -1, current_cycle(), sh.call.get()));
     if let Some(ev) = script.start_emit {
         emit_event(DriverEvent::User(ev));
     }
+    if !plain {
+        construct(-1, &mut armed);
+    }
     for (i, (op, ev)) in script.ops.iter().enumerate() {
         match op {
-            Op::Sleep(d) => sleep_cycles(*d).await,
+            Op::Sleep(d) => match armed.get_mut(i).and_then(|x| x.take()) {
+                Some(nap) => nap.await,
+                None => sleep_cycles(*d).await,
+            },
             Op::Yield => YieldOnce { polled: false }.await,
         }
         sh.log
@@ -85,6 +170,9 @@ async fn scripted(id: u64, script: Script, sh: Rc<Shared>) {
             .push((id, i as i64, current_cycle(), sh.call.get()));
         if let Some(ev) = ev {
             emit_event(DriverEvent::User(*ev));
+        }
+        if !plain {
+            construct(i as i64, &mut armed);
         }
     }
     sh.done.set(sh.done.get() + 1);
@@ -119,6 +207,8 @@ fn parse_interlude(v: &Value) -> Result<Option<Script>, String> {
             at: 0,
             start_emit: None,
             ops,
+            mk: Vec::new(),
+            ghosts: Vec::new(),
         }));
     }
     if v.is_object() {
@@ -145,6 +235,7 @@ fn parse_script(v: &Value) -> Result<Script, String> {
     let at = get_u64(v, "at", 0);
     let start_emit = v.get("se").and_then(|x| x.as_u64()).map(|x| x as u32);
     let mut ops = Vec::new();
+    let mut mk: Vec<Mk> = Vec::new();
     if let Some(arr) = v.get("ops").and_then(|x| x.as_array()) {
         for o in arr {
             let d = o.get(0).ok_or("op without duration")?;
@@ -159,18 +250,47 @@ fn parse_script(v: &Value) -> Result<Script, String> {
             // optional third element: the op is performed `rep` times in a row (compact notation for
             // long chains); the event, if any, belongs to the last repetition
             let rep = o.get(2).and_then(|x| x.as_u64()).unwrap_or(1);
+            // optional fourth element: where the sleep future of the (last repetition of the) op is
+            // constructed -- k >= 1: k resumptions earlier, "spawn" / "new": by the host
+            let m = match o.get(3) {
+                None | Some(Value::Null) => Mk::Inline,
+                Some(x) => match (x.as_u64(), x.as_str()) {
+                    (Some(0), _) => Mk::Inline,
+                    (Some(k), _) => Mk::Earlier(k),
+                    (_, Some("spawn")) => Mk::HostSpawn,
+                    (_, Some("new")) => Mk::HostNew,
+                    _ => return Err(format!("bad op construction place {x}")),
+                },
+            };
             for _ in 1..rep {
                 ops.push((op.clone(), None));
             }
             if rep >= 1 {
                 ops.push((op, ev));
+                if m != Mk::Inline {
+                    mk.resize(ops.len() - 1, Mk::Inline);
+                    mk.push(m);
+                }
             }
+        }
+    }
+    if !mk.is_empty() {
+        mk.resize(ops.len(), Mk::Inline);
+    }
+    let mut ghosts = Vec::new();
+    if let Some(arr) = v.get("gh").and_then(|x| x.as_array()) {
+        for g in arr {
+            let r = g.get(0).and_then(|x| x.as_i64()).ok_or("ghost without resumption")?;
+            let d = g.get(1).and_then(|x| x.as_u64()).ok_or("ghost without duration")?;
+            ghosts.push((r, d));
         }
     }
     Ok(Script {
         at,
         start_emit,
         ops,
+        mk,
+        ghosts,
     })
 }
 
@@ -184,6 +304,8 @@ struct Session {
     tail_max: u64,
     sh: Rc<Shared>,
     driver: AsyncDriver,
+    /// per script: sleep futures the host constructed right after the driver (`Mk::HostNew`)
+    host_armed: Vec<Vec<Option<CycleSleep>>>,
     results: Vec<Value>,
     spawn_clock: Vec<Value>,
     used_budgets: Vec<u64>,
@@ -212,6 +334,12 @@ impl Session {
             AsyncDriver::new()
         };
         let n = scripts.len();
+        let mut host_armed: Vec<Vec<Option<CycleSleep>>> = Vec::with_capacity(n);
+        for sc in scripts.iter() {
+            let mut a = Vec::new();
+            sc.host_built(Mk::HostNew, &mut a);
+            host_armed.push(a);
+        }
         Ok(Session {
             scripts,
             budgets,
@@ -223,6 +351,7 @@ impl Session {
                 done: Cell::new(0),
             }),
             driver,
+            host_armed,
             results: Vec::new(),
             spawn_clock: vec![Value::Null; n],
             used_budgets: Vec::new(),
@@ -252,8 +381,10 @@ impl Session {
         for (i, s) in self.scripts.iter().enumerate() {
             if s.at == call {
                 self.spawn_clock[i] = json!(self.driver.clock());
+                let mut armed = std::mem::take(&mut self.host_armed[i]);
+                s.host_built(Mk::HostSpawn, &mut armed);
                 self.driver
-                    .spawn(scripted(i as u64, s.clone(), self.sh.clone()));
+                    .spawn(scripted(i as u64, s.clone(), self.sh.clone(), armed));
             }
         }
         self.sh.call.set(call);
